@@ -9,8 +9,9 @@ cd "$(dirname "$0")"; V=$(pwd)
 R=${VERIF_REPO:-/repo}
 W=$((16 / LANES)); [ $W -lt 2 ] && W=2
 mkdir -p matrix_logs
+RUNID=$$   # lanes of concurrent runs must never share a worktree
 OUT=matrix_logs/MATRIX_$(date +%Y%m%d_%H%M%S)_$T.txt
-ids=$(cd seeded && ls -d $PAT 2>/dev/null | grep '^M[0-9]' )
+ids=${IDS:-$(cd seeded && ls -d $PAT 2>/dev/null | grep '^M[0-9]' )}
 props_for() {
   local props=""
   for f in $(grep '^+++ b/' $1 | sed 's|+++ b/||'); do
@@ -31,10 +32,10 @@ props_for() {
 }
 lane() {
   local i=$1; shift
-  local wt=/tmp/mx_lane_$i
+  local wt=/tmp/mx_lane_${RUNID}_$i
   git -C $R worktree remove --force $wt >/dev/null 2>&1; rm -rf $wt
   git -C $R worktree add -q --detach $wt HEAD || return
-  export VERIF_REPO=$wt VERIF_OUT=/tmp/mx_out_$i
+  export VERIF_REPO=$wt VERIF_OUT=/tmp/mx_out_${RUNID}_$i
   mkdir -p $VERIF_OUT
   for id in "$@"; do
     d=seeded/$id
